@@ -53,6 +53,9 @@ CHECKS = {
  'C16': dict(cat='exploration', tech='z3 regular-expression queries over the lexer\'s own regexes (rx2z3), witnesses replayed through the real lexer/compiler/VM; choice-variable layouts; symbolic values for brace equivalence',
    text='z3 regex lemmas on the live lexer regexes (no earlier alternative can match at the start of an identifier; every quote-free content up to 8 chars is in the string language; every NUMBER text converts). Solver-enumerated identifiers up to 8 chars in the region table look-ups can affect (case variants of all words in the lexer tables, minus documented reserved words) and solver witnesses outside it are used as variable, macro, parameter and routine names in compiled and executed scripts. Re-layout of 10 scripts: every token adjacency with every separator (incl. comments and no space next to operators/braces/brackets), seeded whole layouts and abbreviations give the identical instruction listing; call brackets identical listing; braces round one value same behaviour for all (symbolic) values in 9 positions.',
    note='ASCII; identifier length <= 8. Known finding: a string ending in a backslash followed by another quote on the same line (conflicts with the tested \\" escape). The classification structure (tables then regex cascade) is read from the code; witnesses guard it.', ref='4/C16'),
+ 'C17': dict(cat='exploration', tech='history exploration by choice variables over the real compiler and ScriptJob/Machine objects; second-run traces compared with fresh runs by z3 on symbolic literals (symx)',
+   text='Compile histories: every ordered pair and seeded triples/quadruples from a pool of 13 valid and 17 invalid texts (rejected inside a loop, routine, matrix block, if; texts relying on names other texts define) on one Parser and one ScriptJob give the verdict, messages and listing of a fresh compiler. Executions: a ScriptJob with symbolic literals run after a first execution that was complete or stopped before VM step k (choice variable) produces the trace of a fresh complete run for all values and leaves the compiled program, including time-pattern denotations, unchanged; every ordered pair of 7 jobs in one process (job 1 complete or stopped at step k; recording and production output bindings): job 2 behaves as when run alone.',
+   note='History length <= 4; stop positions every 3rd-5th VM step up to 40 (quick) / every step (thorough). Device state is reset between executions. Clock hand-over between runs is C09.', ref='4/C17'),
 }
 PENDING = {
 }
